@@ -25,7 +25,7 @@
    addition, negation, scalar multiplication) and with algebraic relations any correct
    implementation satisfies (pairing bilinearity on inputs with known discrete logarithms,
    signatures from the repository's vectors). *)
-From Clvm Require Import Model.OpsCrypto Model.Sha256 Model.Keccak Proofs.CryptoWrap Proofs.CryptoWrap2.
+From Clvm Require Import Model.OpsCrypto Model.Sha256 Model.Keccak Model.Ecdsa Proofs.CryptoWrap Proofs.CryptoWrap2.
 Open Scope N_scope.
 
 (* mod_group_order is reduction into [0, r) *)
@@ -233,6 +233,21 @@ Example C32_keccak256_vectors :
                   0xc0;0xd1;0xe6;0xe3;0x3a;0x64;0xa0;0x36;0xec;0x44;0xf5;0x8f;0xa1;0x2d;0x6c;0x45].
 Proof. vm_compute. split; reflexivity. Qed.
 
+(* the Gallina ECDSA specification (Model/Ecdsa.v): cheap sanity facts by vm_compute — both
+   generators are on their curves, SEC1 decompression of the compressed generator gives back the
+   generator, out-of-range signature components are malformed. Whole verifications cost about a
+   minute each under vm_compute (binary-positive arithmetic), so the specification is validated
+   on the vectors of /repo/op-tests by running its extraction in the check instead. *)
+Example C32_ecdsa_sanity :
+  on_curve secp256k1 (cgx secp256k1) (cgy secp256k1) = true /\
+  on_curve secp256r1 (cgx secp256r1) (cgy secp256r1) = true /\
+  decode_pubkey secp256k1 (2%N :: be_bytes_of_Z 32 (cgx secp256k1)) = Some (cgx secp256k1, cgy secp256k1) /\
+  decode_pubkey secp256r1 (3%N :: be_bytes_of_Z 32 (cgx secp256r1)) = Some (cgx secp256r1, cgy secp256r1) /\
+  decode_sig secp256k1 (repeat 0%N 32 ++ repeat 1%N 32) = None /\
+  decode_sig secp256k1 (repeat 1%N 64) <> None /\
+  Z.odd (cgy secp256k1) = false /\ Z.odd (cgy secp256r1) = true.
+Proof. vm_compute. repeat split; discriminate. Qed.
+
 (* non-vacuity: a coin id computed by the model with the Gallina SHA-256 (amount 0x0100 = 256) *)
 Example C32_coinid_witness :
   exists h, op_coinid sha256 no_flags
@@ -293,3 +308,4 @@ Print Assumptions C32_wrap_pairing_identity_failed.
 Print Assumptions C32_wrap_bls_verify.
 Print Assumptions C32_wrap_bls_verify_failed.
 Print Assumptions C32_group_witness.
+Print Assumptions C32_ecdsa_sanity.
